@@ -920,6 +920,11 @@ func runCaseInner(c *caseT) string {
 		if m, ok := final[c.tsMid]; ok {
 			s := m
 			s.active, s.revoked, s.expired = true, false, 0
+			if s.listen == 0 {
+				// a mapping the server itself listens on has no listen client that could open the tunnel over the
+				// wire: for the set-up phase only it belongs to a stand-in client; it is given its listed shape below
+				s.listen = 901
+			}
 			setup = &s
 		} else {
 			setup = &mappingT{id: c.tsMid, listen: 901, target: 902, secret: "tmp-secret", active: true}
@@ -1362,6 +1367,43 @@ func transportMatrix() []*caseT {
 	return out
 }
 
+// zeroListenMatrix: a mapping the server itself listens on (ListenClientID == 0, e.g. an HTTP-domain mapping made
+// through the management API).  "Client id 0" then equals the mapping's listen client: a connection that is not
+// authenticated (no handshake, refused handshake — which leaves a control-connection record with client id 0 —,
+// a vouching transport without an id) must still be refused.  identity (8) x credential (5) x tunnel state (4).
+func zeroListenMatrix() []*caseT {
+	var out []*caseT
+	mapZ := mappingT{id: "Z", listen: 0, target: 22, secret: "s3cretZ", active: true}
+	type ident struct {
+		hs      int
+		cid     int64
+		asserts bool
+		scid    int64
+		temp    bool
+	}
+	ids := []ident{{0, 0, false, 0, false}, {2, 11, false, 0, false}, {2, 0, false, 0, false}, {1, 11, false, 0, false},
+		{1, 22, false, 0, false}, {1, 33, false, 0, false}, {0, 0, true, 0, true}, {2, 22, true, 0, true}}
+	creds := [][3]string{{"Z", "", ""}, {"Z", "s3cretZ", ""}, {"Z", "wrong", ""}, {"", "", ""}, {"F", "", ""}}
+	for _, id := range ids {
+		for _, cr := range creds {
+			for _, ts := range []string{"none", "waiting", "served", "remote"} {
+				c := &caseT{pl: "ok", hs: id.hs, cid: id.cid, asserts: id.asserts, scid: id.scid, temp: id.temp,
+					rmid: cr[0], rsec: cr[1], rtok: cr[2], maps: []mappingT{mapZ, mapF}, ts: "none"}
+				switch ts {
+				case "waiting":
+					c.ts, c.tsMid = "bridge", "Z"
+				case "served":
+					c.ts, c.tsMid, c.served = "bridge", "Z", true
+				case "remote":
+					c.ts, c.tsMid = "remote", "Z"
+				}
+				out = append(out, c)
+			}
+		}
+	}
+	return out
+}
+
 // configMatrix: configurations and fault points of the cross-node path — this node without a routing table, the
 // other node unreachable (address lookup / dial fails after the ack), a waiting route past its own expiry time.
 func configMatrix() []*caseT {
@@ -1416,6 +1458,9 @@ func randomCases(r *vc.Rand, n int) []*caseT {
 		}
 		for j := 0; j < k; j++ {
 			m := mappingT{id: ids[perm[j]], listen: vc.Pick(r, clients), target: vc.Pick(r, clients), secret: vc.Pick(r, secrets), active: true}
+			if r.Intn(10) == 0 {
+				m.listen = 0 // a mapping the server itself listens on
+			}
 			switch r.Intn(16) {
 			case 0:
 				m.revoked, m.active = true, false
@@ -1515,7 +1560,7 @@ func randomCases(r *vc.Rand, n int) []*caseT {
 				// a bridge can only be opened by the rightful listen client of a usable, listed mapping
 				c.late = ""
 				for _, x := range c.maps {
-					if x.active && !x.revoked && x.expired != 1 && (x.id == c.lateMid || c.late == "") {
+					if x.active && !x.revoked && x.expired != 1 && x.listen != 0 && (x.id == c.lateMid || c.late == "") {
 						c.late, c.lateMid = kind, x.id
 					}
 				}
@@ -1625,6 +1670,11 @@ func main() {
 			lines = append(lines, c.String())
 		}
 		runAll(out, lines, "config-matrix")
+		lines = nil
+		for _, c := range zeroListenMatrix() {
+			lines = append(lines, c.String())
+		}
+		runAll(out, lines, "zero-listen-matrix")
 		runAll(out, []string{"e2e"}, "e2e")
 		runAll(out, []string{"rmw usage", "rmw stats", "rmw status"}, "rmw")
 		n := 600
